@@ -76,6 +76,13 @@ pub fn gen_case(seed: u64) -> MountCase {
         0 | 1 | 2 => {} // valid as formatted
         3 => {
             // one below the FAT16 minimum: must be refused
+            // (the volumes are re-packed below: bring a layout from the top of the block range down first)
+            let low = dev.vols.iter().map(|v| v.lba).min().unwrap_or(1);
+            if low >= 0x4000_0000 {
+                for v in dev.vols.iter_mut() {
+                    v.lba -= low - 1;
+                }
+            }
             let v = &mut dev.vols[target];
             let lba = v.lba;
             *v = gen_volspec(&mut r, Bias::Geometry, lba, v.slot);
